@@ -1,7 +1,7 @@
 """C11 — scaling with size and the area/time trade-off (kinds T + A)."""
 from .. import poly
 from ..poly import Rat, subst, key_equiv, map_key, key_str
-from ..procmodel import process_functions, evaluate, PM
+from ..procmodel import split_models, process_functions, evaluate, PM
 from ..values import *
 from ..symeval import val_key
 from .c01 import num, comp_p, step_params, SERIES_FIELDS
@@ -33,7 +33,7 @@ def run(ck):
     purity(ck, repo, funcs)
     for func in funcs:
         ck.analysed_function(func)
-        models = [m for m in evaluate(repo, func, ck.tier) if isinstance(m, PM)]
+        models = split_models(ck, 'X0', func, evaluate(repo, func, ck.tier))
         ck.floor("evaluated paths of %s" % func.qualname, len(models), 6)
         ck.analysed["paths"] += len(models)
         for pm in models:
